@@ -235,7 +235,12 @@ class Exec:
         self.oracle_on = oracle
         self.bad = None                    # first violated clause (signature, what, op index)
         self.nops = 0
-        self.free = {}                     # identity -> parent-less object (bottom-up construction), in creation order
+        self.free = {}                     # identity -> object that is in no map: parent-less (bottom-up construction) or
+                                           # retired (handed back by remove()), in the order they became free
+        self.retired = set()               # identities of the retired ones (HEAD leaves their _parent pointing at the old
+                                           # map, so their extended_key() is stale by design and is not observed)
+        self.last_removed = None           # (target, parent path, key, identity) of the last successful remove
+        self.retired_from = {}             # identity -> (the map it was removed from, its key)
         self.reffree = {}                  # identity -> its reference tree
         self.ins = {}                      # id(obj) -> number of the op that inserted it into the map that lists it
         self.T = self.root                 # the tree the current operation works on (the model's root or a parent-less object)
@@ -247,7 +252,7 @@ class Exec:
         self.Tref = self.ref
         self.set_hist = {}
         self.outside = False
-        self.stats = {"readd_ref": 0, "readd_acc": 0, "new": 0, "free_ops": 0, "attach_ok": 0, "attach_ref": 0, "attached_nodes": 0, "set_ok": 0, "set_rej": 0, "add_ok": 0, "add_rej": 0, "rm_ok": 0, "depth": 1, "ties": 0}
+        self.stats = {"readd_ref": 0, "readd_acc": 0, "retired_readded": 0, "retired_readded_successor": 0, "new": 0, "free_ops": 0, "attach_ok": 0, "attach_ref": 0, "attached_nodes": 0, "set_ok": 0, "set_rej": 0, "add_ok": 0, "add_rej": 0, "rm_ok": 0, "depth": 1, "ties": 0}
         self._note_new()
 
     # ---- walking the real tree
@@ -276,15 +281,32 @@ class Exec:
             cur = cur.value[seg]
         return cur
 
+    def struct_keys(self, R):
+        """id(p) -> key path from R (R's own key first), from the dict structure"""
+        P = mods()["P"]
+        res = {id(R): R.key}
+
+        def go(m, prefix, d):
+            if isinstance(m, P.InputParameterMap) and d < 40:
+                for k, c in list(m.value.items()):
+                    res.setdefault(id(c), prefix + "." + k)
+                    go(c, prefix + "." + k, d + 1)
+        go(R, R.key, 1)
+        return res
+
     def dump(self, new_id):
         P = mods()["P"]
         out = []
+        struct = {}
+        for ident in self.retired:
+            if ident in self.free:
+                struct.update(self.struct_keys(self.free[ident]))
         for p, _d in self.walk():
             if id(p) not in self.ids:
                 self.ids[id(p)] = new_id if new_id is not None else -1
                 self.keep.append(p)
             try:
-                ek = p.extended_key()
+                ek = struct[id(p)] if id(p) in struct else p.extended_key()
             except Exception as exc:      # noqa: BLE001 - e.g. a parent cycle: an observable, and never what the model says
                 ek = f"<extended_key() raises {type(exc).__name__}>"
             if isinstance(p, P.InputParameterMap):
@@ -391,7 +413,10 @@ class Exec:
             segs = op[1].split(".")
             par = self.ref_node(".".join(segs[:-1])) if len(segs) > 1 else self.Tref
             if par is not None:
+                gone = [k for k in par["kids"] if k["key"] == segs[-1]]
                 par["kids"] = [k for k in par["kids"] if k["key"] != segs[-1]]
+                if gone:
+                    self.reffree[gone[0]["id"]] = gone[0]          # retired, not gone
         elif t in ("set", "mset"):
             n = self.ref_node(op[1])
             if n is not None:
@@ -523,6 +548,10 @@ class Exec:
         pre_dup = None
         if isinstance(pre_parent, P.InputParameterMap) and op[2]["key"] in pre_parent.value:
             pre_dup = pre_parent.value[op[2]["key"]]
+        pre_parent_of_removed = None
+        if t == "remove":
+            segs0 = op[1].split(".")
+            pre_parent_of_removed = self.T if len(segs0) == 1 else self.resolve(".".join(segs0[:-1]))
         if t == "attach":
             pre_parent = self.T if op[2] is None else self.resolve(op[2])
             k = self.free[op[1]].key
@@ -548,6 +577,18 @@ class Exec:
         if t == "readd":
             self.stats["readd_ref"] += 1
         new_id = self.nops + 1 if t in ("addc", "addm", "new") else None
+        if t == "remove" and out[0] == "param" and ret_obj is not None and out[1] >= 0:
+            self.free[out[1]] = ret_obj                  # the object handed back is retired: it can be added again
+            self.retired.add(out[1])
+            self.retired_from[out[1]] = (pre_parent_of_removed, ret_obj.key)
+            segs = op[1].split(".")
+            self.last_removed = (op0[1] if op0[0] == "free" else None, ".".join(segs[:-1]) or None, segs[-1], out[1])
+        if t == "attach" and out[0] == "none" and op[1] in self.retired:
+            self.retired.discard(op[1])
+            self.stats["retired_readded"] += 1
+            old_map, k = self.retired_from.pop(op[1], (None, None))
+            if isinstance(old_map, P.InputParameterMap) and k in old_map.value and old_map is not pre_parent:
+                self.stats["retired_readded_successor"] += 1
         if t == "new" and out[0] == "none":
             self.stats["new"] += 1
         if t == "attach":
@@ -617,11 +658,13 @@ class Exec:
                     return (f"default-value-changed:{cls}", f"default of {p.extended_key()} changed from {f[0]} to {canon(p.default_value)}")
                 if p.read_only and f[1] is not None and canon(p.value) != f[1]:
                     return (f"read-only-value-changed:{cls}", f"read-only {p.extended_key()} changed from {f[1]} to {canon(p.value)} by {op[0]}")
-            if p is R and R is not self.root and (R.parent is not None or R.extended_key() != R.key):
+            if self.ids.get(id(R)) in self.retired:
+                pass        # a retired object: HEAD leaves its _parent (hence its extended key) pointing at the old map
+            elif p is R and R is not self.root and (R.parent is not None or R.extended_key() != R.key):
                 return ("parentless-object-has-a-parent",
                         f"the parent-less object {R.key!r} (identity {self.ids.get(id(R))}) reports parent "
                         f"{R.parent.extended_key() if R.parent is not None else None} and extended key {R.extended_key()!r} after {self._op0[:3]}")
-            if p is not R:
+            elif p is not R:
                 ek = p.extended_key()
                 pre = R.key + "."
                 try:
@@ -667,6 +710,13 @@ class Exec:
             elif doc_valid(pre_target, v) and not pre_target.read_only:
                 return (f"model-set-parameter-raises:{exc_name}",
                         f"DSOLModel.set_parameter({op[1]!r}, {canon(v)}) raised {exc_name} for a valid value of a writable {type(pre_target).__name__}")
+        # nothing ever leaves the forest (a removed parameter is retired): whoever was listed is still listed
+        here = {e[1] for e in now}
+        for e in self.prev:
+            if e[1] not in here:
+                return (f"listed-parameter-vanished:{t}",
+                        f"the parameter with identity {e[1]} (listed as {e[0]!r} before) is listed nowhere after {self._op0[:3]}: "
+                        "it was never removed, yet it is no longer retrievable / removable by its key")
         rd = self.ref_dump()
         if now != rd:
             diff = next((i for i, (a, b) in enumerate(zip(now, rd)) if a != b), min(len(now), len(rd)))
@@ -908,16 +958,37 @@ def gen_and_run(rng, n_ops, malformed=False):
                     sp["flaws"] = {k: v for k, v in sp["flaws"].items() if k in FLAWS_FOR["map"]}
             op = ["new", sp]
             tgt = None
-        elif ex.free and u < (0.24 if bottom_up else 0.0):
+        elif ex.last_removed is not None and ex.last_removed[0] == tgt and rng.random() < 0.5:
+            # a successor under the key that was just vacated
+            _tg, pp, key, _ident = ex.last_removed
+            ex.last_removed = None
+            ex.T = T
+            sp = gen_spec(rng, False, set(), 0.0)
+            sp["key"] = key
+            op = [rng.choice(["addc", "addm"]), pp, sp]
+        elif ex.free and u < (0.24 if bottom_up else 0.10):
             # attach a parent-less object: to the model's tree or to another parent-less map
             cand = list(ex.free)
-            i_att = rng.choice(cand)
+            ret = [j for j in cand if j in ex.retired]
+            i_att = rng.choice(ret) if ret and rng.random() < 0.6 else rng.choice(cand)
             tgts = [None] + [j for j in free_maps if j != i_att]
             tgt = rng.choice(tgts) if rng.random() < 0.4 else None
             T = ex.root if tgt is None else ex.free[tgt]
             leafs, maps, depth_of = rel_paths(T)
             dst = rng.choice([None] + maps) if rng.random() > pbad * 0.5 else rng.choice(leafs + [bogus_path(rng, leafs, maps)])
             op = ["attach", i_att, dst]
+            # HEAD's remove() leaves the retired object's _parent pointing at the old map; adding an object below a
+            # map whose (possibly stale) parent chain leads back to that object closes a cycle of parent pointers, on
+            # which extended_key() / str() (used in add()'s own error message) recurse for ever: outside the model
+            ex.T = T
+            q = T if dst is None else ex.resolve(dst)
+            for _ in range(200):
+                if q is None:
+                    break
+                if q is ex.free[i_att]:
+                    op = ["get", bogus_path(rng, leafs, maps)]
+                    break
+                q = getattr(q, "parent", None)
         elif r < (0.75 if grow else 0.26):
             variant = "addc" if rng.random() < 0.6 else "addm"
             pp = None
@@ -1244,7 +1315,8 @@ RULE = ("random operation sequences (10-28 ops; every 5th from a malformed-heavy
         "wrong quantity class, bool for int, SI / Quantity for float, NaN, +-inf, -0.0, 10**400, read-only), paths existing and malformed, "
         "existing objects offered to maps that hold their key (refused re-adds; an accepted re-add ends the sequence); "
         "40% of the sequences also build parent-less objects (mostly maps), fill them, read all extended keys and attach them "
-        "to the tree or to each other later; "
+        "to the tree or to each other later; every removed object stays addressable as a retired object and may be added again "
+        "(to the same or another map, also after a successor took its key); "
         "non-trivial = distinct sequence with >= 1 accepted and >= 1 rejected set-value on an existing leaf, >= 3 successful adds "
         "and a tree of depth >= 3")
 HOW = ("harness/c18.py run_ops(ops): each op is applied to a fresh DSOLModel's input_parameters "
@@ -1316,7 +1388,7 @@ def main(tier: str) -> int:
                 hist_exc[out[1]] = hist_exc.get(out[1], 0) + 1
         for k, v in ex.set_hist.items():
             set_hist[k] = set_hist.get(k, 0) + v
-        for k in ("new", "free_ops", "attach_ok", "attach_ref", "attached_nodes"):
+        for k in ("new", "free_ops", "attach_ok", "attach_ref", "attached_nodes", "retired_readded", "retired_readded_successor"):
             bottom_up[k] = bottom_up.get(k, 0) + ex.stats[k]
         if ex.stats["attach_ok"] and ex.stats["attached_nodes"] > ex.stats["attach_ok"]:
             bottom_up["sequences_attaching_a_filled_submap"] = bottom_up.get("sequences_attaching_a_filled_submap", 0) + 1
